@@ -187,6 +187,17 @@ Theorem C04_concurrent_writers_intact :
 Proof. exact conc_writers_intact_lemma. Qed.
 Print Assumptions C04_concurrent_writers_intact.
 
+(* ... and every write that was given its four steps ([occ n sched] = how often chunk n is scheduled) is complete:
+   it has succeeded and the file under its ID holds exactly its own bytes - whatever the other writers did meanwhile. *)
+Theorem C04_concurrent_writers_complete :
+  forall tmpf js d0, jobs_ok tmpf js -> no_dirs tmpf js d0 ->
+  forall sched, (forall j, In j sched -> In j js) ->
+  forall d p, cw_run tmpf sched (d0, pc0) = (d, p) ->
+  forall n data, In (n, data) js -> (4 <= occ n sched)%nat ->
+  p n = 4%nat /\ dir_get d n = Some (EFile data).
+Proof. exact conc_writers_complete_lemma. Qed.
+Print Assumptions C04_concurrent_writers_complete.
+
 (* ... and the temporary names of the tree (id ++ ".tmp") meet the requirement for distinct IDs accepted by a
    matcher that rejects temporary names. *)
 Theorem C04_concurrent_writers_tmp_names :
